@@ -81,6 +81,10 @@ def main():
             # private network namespace: the MLLP tests bind fixed ports that concurrent test runs on this host may hold
             rc, o, t = sh("unshare -rn sh -c 'ip link set lo up; cd %s && PYTHONPATH=%s /venv/bin/python -m pytest -q -p no:cacheprovider --timeout=900 tests 2>&1 | tail -3'" % (REPO, REPO))
             m = re.search(r'(\d+) passed', o)
+            if not (m and int(m.group(1)) >= 353) or 'failed' in o:
+                # one timing-dependent test of the suite fails now and then on a busy machine: once more before judging
+                rc, o, t = sh("unshare -rn sh -c 'ip link set lo up; cd %s && PYTHONPATH=%s /venv/bin/python -m pytest -q -p no:cacheprovider --timeout=900 tests 2>&1 | tail -3'" % (REPO, REPO))
+                m = re.search(r'(\d+) passed', o)
             out['tests'] = {'passed': int(m.group(1)) if m else 0, 'failed': 'failed' in o or 'error' in o.lower(), 'tail': o.strip()[-200:], 'wall_s': round(t, 1)}
         if os.path.exists(demo):
             rc, o, t = sh('cd %s && /venv/bin/python %s' % (d, demo), env=env, timeout=600)
